@@ -570,6 +570,14 @@ func ParseSPKI(alg AlgID, key BitStr) (*PublicKey, error) {
 
 func unmarshalPoint(ci *CurveInfo, b []byte) (*big.Int, *big.Int, error) {
 	l := (ci.Curve.Params().BitSize + 7) / 8
+	if len(b) == 1+l && (b[0] == 2 || b[0] == 3) && strings.HasPrefix(ci.Name, "P-") {
+		// compressed form (SEC1 2.3.4), which RFC 5480 permits in certificates of other tools
+		x, y := elliptic.UnmarshalCompressed(ci.Curve, b)
+		if x == nil {
+			return nil, nil, errors.New("compressed EC point not on curve " + ci.Name)
+		}
+		return x, y, nil
+	}
 	if len(b) != 1+2*l || b[0] != 4 {
 		return nil, nil, fmt.Errorf("EC point: want uncompressed %d bytes, got %d (first %x)", 1+2*l, len(b), b[:min(1, len(b))])
 	}
